@@ -519,6 +519,7 @@ def evConn : Ev → ConnId
   | .msg c _ => c
   | .invalid c => c
   | .close c => c
+  | .timeout => 0
 
 /-- one step changes the view in one of four ways -/
 theorem view_step (tbl : List IfaceRow) (b : Bus) (ev : Ev) :
@@ -540,6 +541,13 @@ theorem view_step (tbl : List IfaceRow) (b : Bus) (ev : Ev) :
     · exact Or.inl (.refl _ _)
     · exact Or.inl (view_disconnect b c)
   | close c => exact Or.inl (view_disconnect b c)
+  | timeout =>
+    left
+    simp only [step, expireAll]
+    have h : Step KCore noFw ({ bus := { b with pending := [] } } : Tx)
+        (b.pending.foldl (fun t p => sendError t p.caller (fakeCall p.serial) .noReply) ({ bus := { b with pending := [] } } : Tx)) :=
+      step_fold KCore.refl KCore.trans _ (fun t p => step_sendError t _ _ _) _ _
+    exact ViewStep.of_core _ (KCore.trans _ _ _ (show KCore b { b with pending := [] } from rfl) h.bus)
 
 theorem namesInv_step (tbl : List IfaceRow) (b : Bus) (ev : Ev) (hi : NamesInv b) : NamesInv (step tbl b ev).1 := by
   rcases view_step tbl b ev with h | ⟨c, _, hc, hn, hm, hcn⟩
